@@ -540,7 +540,46 @@ def F31():
     return b.p.envGroupNum == 52, f"envGroupNum=52 stored letter {letter!r}; setting that letter gives number {b.p.envGroupNum}"
 
 
-ALL = dict(F31=F31, F30=F30, F29=F29, F28=F28, F26=F26, F27=F27, F24=F24, F25=F25, F23=F23, F10=F10, F12=F12, F17=F17, F18=F18, F19=F19, F11=F11, F13=F13, F20=F20, F21=F21, F22=F22, F1=F1, F2=F2, F3=F3, F4=F4, F5=F5, F6=F6, F7=F7, F8=F8, F9=F9, F14=F14)
+def F32():
+    import io
+    from armi.utils import asciimaps
+
+    data = {(i, j): "A" for i in range(-2, 3) for j in range(-2, 3)}
+    m = asciimaps.AsciiMapCartesian()
+    m.asciiLabelByIndices = dict(data)
+    try:
+        m.gridContentsToAscii()
+    except ValueError:
+        return True, "Cartesian map with negative indices is refused"
+    s = io.StringIO()
+    m.writeAscii(s)
+    m2 = asciimaps.AsciiMapCartesian()
+    m2.readAscii(s.getvalue())
+    back = {k: v for k, v in m2.asciiLabelByIndices.items() if v != asciimaps.PLACEHOLDER}
+    return back == data, f"drawn map reads back {len(back)} of {len(data)} cells"
+
+
+def F33():
+    from armi.reactor.blueprints.tests.test_materialModifications import TestMaterialModifications
+
+    t = TestMaterialModifications()
+    try:
+        t.loadUZrAssembly(
+            """
+        material modifications:
+            by component:
+                fuel1:
+                    U235_wt_frac: [0.20, 0.10]
+                fuel2:
+                    U235_wt_frac: [0.50]
+"""
+        )
+    except ValueError:
+        return True, "wrong-length by-component list is refused"
+    return False, "a by-component list with 2 entries for 1 block was accepted because another component has the same modification name"
+
+
+ALL = dict(F33=F33, F32=F32, F31=F31, F30=F30, F29=F29, F28=F28, F26=F26, F27=F27, F24=F24, F25=F25, F23=F23, F10=F10, F12=F12, F17=F17, F18=F18, F19=F19, F11=F11, F13=F13, F20=F20, F21=F21, F22=F22, F1=F1, F2=F2, F3=F3, F4=F4, F5=F5, F6=F6, F7=F7, F8=F8, F9=F9, F14=F14)
 
 if __name__ == "__main__":
     sys.path.insert(0, os.getcwd())
